@@ -103,8 +103,10 @@ class C19(Prop):
                 rig.log.raise_on = lambda dev, n: n % 5 == 0     # a user callback that sometimes fails
                 async with bridge:
                     for p in use:
-                        for j, model in enumerate(gen.MODELS):
-                            d = gen.broadcast_desc(r, model, r.randrange(10 ** 6), f"{(j + 1) * 7919 % 0xEFFFFF:06x}")
+                        for j, model in enumerate(gen.MODELS * 2):
+                            # second round: a handful of ids shared by devices of every family (replaced hardware, three-byte id collisions)
+                            did = f"{(j + 1) * 7919 % 0xEFFFFF:06x}" if j < 9 else ("0a0b0c", "00c0de")[j % 2]
+                            d = gen.broadcast_desc(r, model, r.randrange(10 ** 6), did)
                             good = rb.encode(d)
                             rig.send(p, good)
                             # the ugly side of real traffic: undecodable fields, unknown models, foreign bytes
@@ -123,8 +125,46 @@ class C19(Prop):
                             rig.send(p, good)
                         if await rig.barrier(p) != "ok":
                             acc.inconclusive_because("workload: sentinel not delivered")
+                    rig.log.raise_on = None
+                    # a long-lived process on a noisy network: hundreds of distinct model codes nobody knows ...
+                    known = {bytes.fromhex(t.hex_rep) for t in self.device.DeviceType}
+                    template = rb.encode(gen.broadcast_desc(r, "V4", 1, "0d0e0f"))
+                    n_unknown = 0
+                    for code in r.sample(range(0x10000), 700 if ports is not None else 300):
+                        cb = code.to_bytes(2, "big")
+                        if cb in known:
+                            continue
+                        unk = bytearray(template)
+                        unk[74:76] = cb
+                        rig.send(use[n_unknown % len(use)], bytes(unk))
+                        n_unknown += 1
+                        if n_unknown % 50 == 0:
+                            await rig.barrier(use[(n_unknown - 1) % len(use)])
+                    acc.count("workload_distinct_unknown_model_codes", n_unknown)
+                    for p in use:
+                        await rig.barrier(p)
+                    # ... after which every known model code must still identify its type
+                    mark = len(rig.log.events)
+                    want = {}
+                    for j, model in enumerate(gen.MODELS):
+                        did = f"{0xB00000 + j:06x}"
+                        want[did] = model
+                        rig.send(use[j % len(use)], rb.encode(gen.broadcast_desc(r, model, r.randrange(10 ** 6), did)))
+                    for p in use:
+                        if await rig.barrier(p) != "ok":
+                            acc.inconclusive_because("workload: sentinel not delivered")
+                    got = {dv_.device_id: dv_ for k, dv_ in rig.log.events[mark:] if k == "device" and not udp.is_sentinel(dv_)}
+                    for did, model in want.items():
+                        acc.ev()
+                        acc.distinct()
+                        dv_ = got.get(did)
+                        if dv_ is None or dv_.device_type.name != model:
+                            acc.violation("model-code-stops-identifying-type:after-use",
+                                          f"after {n_unknown} distinct unknown model codes had been heard, a {model} broadcast (code "
+                                          f"{rb.MODELS[model][0]}) was " + ("not delivered at all" if dv_ is None else f"delivered as {dv_.device_type.name}"),
+                                          {"model": model, "unknown_codes_heard": n_unknown})
                 rig.log.raise_on = None
-                acc.count("workload_datagrams", 9 * 5 * len(use))
+                acc.count("workload_datagrams", 18 * 5 * len(use))
                 # a start that fails half way
                 await asyncio.sleep(0)
                 await asyncio.sleep(0)
@@ -137,6 +177,19 @@ class C19(Prop):
                         acc.count("workload_failed_starts")
                     held.close()
             acc.count("workload_devices_delivered", sum(1 for k, _ in rig.log.events if k == "device"))
+            # every object the library handed out obeys the class/category rule its constructor enforces
+            for k, dv_ in rig.log.events:
+                if k != "device" or udp.is_sentinel(dv_):
+                    continue
+                acc.ev()
+                cat = CLASS_CATEGORY.get(type(dv_).__name__)
+                tcat = getattr(getattr(dv_.device_type, "category", None), "name", None)
+                if cat is None or cat != tcat:
+                    acc.violation("delivered-object-of-wrong-class:after-use", f"the bridge handed out a {type(dv_).__name__} whose device_type is "
+                                  f"{getattr(dv_.device_type, 'name', dv_.device_type)} (category {tcat}) under id {dv_.device_id}",
+                                  {"class": type(dv_).__name__, "type": str(dv_.device_type)})
+                else:
+                    acc.count("delivered_objects_class_matches_category")
         finally:
             rig.uninstall(loop)
         trig = tcpwork.Rig(self.shard)
